@@ -3,16 +3,18 @@
 #[cfg(kani)]
 mod verif_phase {
     use super::*;
-    /// complete: all three values. read(build(p)) == p  (the stored replica state survives its wire encoding, C03/C09)
-    #[kani::proof]
-    fn phase_roundtrip() {
-        let k: u8 = kani::any();
-        kani::assume(k < 3);
-        let p = match k { 0 => Phase::Prepare, 1 => Phase::Commit, _ => Phase::Timeout };
-        let back = <Phase as ProtoFmt>::read(&p.build());
-        assert!(back.is_ok());
-        assert!(back.unwrap() == p);
+    /// complete: the three values are enumerated by three concrete harnesses. read(build(p)) == p
+    /// (the stored replica state survives its wire encoding, C03/C09)
+    fn check(p: Phase) {
+        // (an Err is forgotten, not dropped: dropping an anyhow::Error goes through a vtable CBMC resolves very slowly)
+        match <Phase as ProtoFmt>::read(&p.build()) {
+            Ok(back) => assert!(back == p),
+            Err(e) => { core::mem::forget(e); panic!("decode of an encoded Phase failed"); }
+        }
     }
+    #[kani::proof] fn phase_roundtrip_prepare() { check(Phase::Prepare) }
+    #[kani::proof] fn phase_roundtrip_commit() { check(Phase::Commit) }
+    #[kani::proof] fn phase_roundtrip_timeout() { check(Phase::Timeout) }
 }
 #[cfg(kani)]
 mod verif_roles_conv {
